@@ -105,13 +105,29 @@ Proof.
   - destruct (IH name ch H) as [k' Hk]. exists k'. right. exact Hk.
 Qed.
 
-Lemma verified_chain : forall schema cfg name ch,
-  verify_config schema cfg = true -> lookup_rewrite (c_rewrite cfg) name = Some ch ->
-  verify_rewriters schema ch = true.
+Lemma verified_chain : forall schema cfg,
+  verify_config schema cfg = true -> chains_ok schema cfg.
 Proof.
-  intros schema cfg name ch V L. unfold verify_config in V. apply andb_true_iff in V. destruct V as [_ V].
+  intros schema cfg V name ch L. unfold verify_config in V. apply andb_true_iff in V. destruct V as [_ V].
   rewrite forallb_forall in V. destruct (lookup_rewrite_In _ _ _ L) as [k Hk].
   specialize (V _ Hk). cbn [fst snd] in V. apply andb_true_iff in V. apply V.
+Qed.
+
+Lemma verified_env : forall schema cfg,
+  verify_config schema cfg = true -> Forall (fun n => In n schema) (c_env cfg).
+Proof.
+  intros schema cfg V. unfold verify_config in V.
+  apply andb_true_iff in V. destruct V as [V _]. apply andb_true_iff in V. destruct V as [V _].
+  apply andb_true_iff in V. destruct V as [_ V]. rewrite forallb_forall in V.
+  apply Forall_forall. intros n Hn. apply has_name_In. apply V. exact Hn.
+Qed.
+
+Lemma verified_hidden : forall schema cfg,
+  verify_config schema cfg = true -> Forall (fun n => In n schema) (c_hidden cfg).
+Proof.
+  intros schema cfg V. unfold verify_config in V.
+  apply andb_true_iff in V. destruct V as [V _]. apply andb_true_iff in V. destruct V as [_ V].
+  rewrite forallb_forall in V. apply Forall_forall. intros n Hn. apply has_name_In. apply V. exact Hn.
 Qed.
 
 (* ------------------------------------------------------------------ *)
@@ -491,14 +507,22 @@ Proof.
   repeat split; reflexivity.
 Qed.
 
-(* every configuration accepted by VerifyConfig whose environment fields exist is constructible: no error, no panic *)
-Theorem new_serializer_ok : forall schema cfg B,
-  config_ok schema cfg -> exists ser, new_serializer schema cfg B = Ok ser.
+(* constructible: the environment fields exist and the chains are valid *)
+Theorem new_serializer_ok_gen : forall schema cfg B,
+  Forall (fun n => In n schema) (c_env cfg) -> chains_ok schema cfg ->
+  exists ser, new_serializer schema cfg B = Ok ser.
 Proof.
-  intros schema cfg B [V E]. unfold new_serializer.
+  intros schema cfg B E V. unfold new_serializer.
   destruct (locate_all_ok schema (c_env cfg) E) as (locs & El & _). rewrite El. cbn [obind].
-  destruct (build_rewriters_ok schema cfg schema (fun n ch => verified_chain schema cfg n ch V)) as [rws Er].
+  destruct (build_rewriters_ok schema cfg schema V) as [rws Er].
   rewrite Er. cbn [obind]. rewrite !serialize_strings_spec. cbn [obind]. eexists. reflexivity.
+Qed.
+
+(* every configuration accepted by VerifyConfig is constructible: no error, no panic *)
+Theorem new_serializer_ok : forall schema cfg B,
+  verify_config schema cfg = true -> exists ser, new_serializer schema cfg B = Ok ser.
+Proof.
+  intros schema cfg B V. apply new_serializer_ok_gen; [apply verified_env; exact V | apply verified_chain; exact V].
 Qed.
 
 (* ------------------------------------------------------------------ *)
@@ -549,7 +573,7 @@ Proof.
 Qed.
 
 Theorem encode_buf_spec_from_lemma : forall schema cfg rec B ser buffer,
-  verify_config schema cfg = true ->
+  chains_ok schema cfg ->
   (length schema <= length (r_fields rec))%nat ->
   new_serializer schema cfg B = Ok ser ->
   length buffer = B ->
@@ -558,7 +582,7 @@ Theorem encode_buf_spec_from_lemma : forall schema cfg rec B ser buffer,
 Proof.
   intros schema cfg rec B ser buffer V L Hnew Hbuf Hfit.
   destruct (new_serializer_inv _ _ _ _ Hnew) as (Hm & Hk & Hek & Hloc & Hrw & Hb).
-  pose proof (fun n ch => verified_chain schema cfg n ch V) as Hver.
+  pose proof V as Hver.
   pose proof (locate_all_length _ _ _ Hloc) as Hnloc.
   unfold serialize_record_from, encode_record_on. rewrite Hm, Hk, Hek, Hnloc. rewrite map_length.
   replace (length schema <=? length (r_fields rec))%nat with true by lia. cbn [obind].
@@ -649,7 +673,7 @@ Proof.
 Qed.
 
 Theorem encode_buf_spec_lemma : forall schema cfg rec B ser,
-  verify_config schema cfg = true ->
+  chains_ok schema cfg ->
   (length schema <= length (r_fields rec))%nat ->
   new_serializer schema cfg B = Ok ser ->
   (length (encode_spec schema cfg rec) < B)%nat ->
@@ -846,7 +870,7 @@ Qed.
 (* the headline: what the serializer emits decodes to the record       *)
 
 Theorem decode_serialized_lemma : forall schema cfg rec B ser buffer,
-  verify_config schema cfg = true ->
+  chains_ok schema cfg ->
   (length schema <= length (r_fields rec))%nat ->
   N.of_nat (length schema) < 65535 ->
   N.of_nat (length (c_env cfg)) < 65536 ->
